@@ -1688,6 +1688,10 @@ def gen_registry_cases(rnd, ncases, pools, toks, length=30):
                 c.op(op="markers", sid=1000 + i, l=SENT_L, r=SENT_R)
             shared_titles = [rnd.choice(pools[la]), rnd.choice(pools[lb]), rnd.choice(["Straße Größe", "université café", "running shoes", "ёлка мёд"]),
                              "old orange elephant under a cafe near us", "Öl Äpfel Übung école ñandú ça ёж"]
+            if rnd.random() < 0.5:
+                # a word longer than the scratch buffers' initial capacity (20) is met first: what the thread-wide buffers look
+                # like after growing (and, in a changed tree, shrinking) is what every later call of every id works with
+                shared_titles.insert(0, rand_word(rnd, script_letters(la), 22, 34) + " " + rand_word(rnd, script_letters(la), 4, 7))
             for t in shared_titles:
                 for i in (1, 2):
                     c.op(op="r_add", id=i, rid=nrid, title=cps(t), rating=nrid)
@@ -1977,11 +1981,11 @@ def gen_long_lived_store_cases(prop, lang, rnd):
     want = ["qtok", "fresh"] if prop == "C10" else ["qtok"]
     ex1 = {"expect": dict(prop="C03", kind="prefix", rid=1, widx=1)} if prop == "C03" else {}
     ex2 = {"expect": dict(prop="C03", kind="prefix", rid=2, widx=1)} if prop == "C03" else {}
-    c.search(sid, w1[:2], want=want, **ex1)
+    c.search(sid, w1[:2], want=want, rep=1, **ex1)
     for gap in (254, 255, 256, 257, 65534, 65535, 65536, 65537):
-        c.search(sid, w2[:2], want=want, times=gap, **ex2)
-        c.search(sid, w1[:2], want=want, **ex1)
-        c.search(sid, w1, want=want, **ex1)
+        c.search(sid, w2[:2], want=want, times=gap, rep=1, **ex2)       # rep: repeated searches are the point (not de-duplicated)
+        c.search(sid, w1[:2], want=want, rep=1, **ex1)
+        c.search(sid, w1, want=want, rep=1, **ex1)
     return [c]
 
 
